@@ -675,7 +675,7 @@ func c22() {
 	// collector run continuously, which under -race on a busy machine costs far
 	// more than the work itself.
 	debug.SetGCPercent(800)
-	n := r.Pick(240, 2500)
+	n := r.Pick(240, 1500)
 	largeEvery := r.Pick(30, 8)
 	seeds := make([]int64, n)
 	rng := r.Rand("cases")
